@@ -50,11 +50,23 @@ def search(ctx, broken):
             found += norm_exec.explore_norm(c, 300, steps=5, props=PROPS, salt=43)["violations"]
         if found:
             break
+    if not found:
+        # calls tied by add_dependency only and working through side effects (harness/c08_effects.py): the run after a cut
+        # must return and store what a from-scratch run does
+        from harness import c08_effects
+        for v in c08_effects.side_effect_cases(ctx)["violations"]:
+            if "from scratch" in v["what"]:
+                v["property"] = "C03"
+                found.append(v)
     return found
 
 
 def replay(ctx, payload):
     w = payload.get("witness", payload)
+    if isinstance(w, dict) and w.get("replay_fn") == "side_effects":
+        from harness import c08_effects
+        r = c08_effects.side_effect_cases(ctx, replay=w)
+        return r["violations"][0]["what"] if r["violations"] else None
     if isinstance(w, dict) and w.get("kind") == "norm":
         from harness import norm_exec
         return norm_exec.replay_norm(ctx, w, PROPS)
